@@ -1,11 +1,11 @@
 import Enc.Lemmas.ProtoRoundTrip
 import Enc.Spec.Known
 /-!
-# C03: inputs OUTSIDE the hypotheses of `unmarshal_marshal_*` on which `unmarshal ty (marshal ty v)` is NOT `v`
+# C03: inputs OUTSIDE the hypotheses of `unmarshal_marshal_*` on which `unmarshalU ty (marshal ty v)` is NOT `v`
 
 None of these is in a listed known class (`Known.protoClasses` is empty on all of them); each is excluded by
 `tagAgree` / `tyOK` (so the theorems do not cover them).  Output format of `rt`:
-`marshal bytes | unmarshal result | original | canonical forms equal? | known classes`.
+`marshal bytes | unmarshalU result | original | canonical forms equal? | known classes`.
 
   R1  `rep` in the struct tag of a NON-slice field (`protobuf:"varint,1,rep"` on `int64`, `"bytes,1,rep"` on `string`,
       `[]byte`, a message, `*T`): `structCodecOf` sets the `repeated` flag, so the second encoder loop writes the bare
@@ -28,7 +28,7 @@ open Enc Enc.Model.Proto
 
 def rt (t : Ty) (v : Val) : String :=
   let b := marshal t v
-  let r := unmarshal t b
+  let r := unmarshalU t b
   let okc := match r with
     | .ok v' => (Spec.Protobuf.canonical t v').show == (Spec.Protobuf.canonical t v).show
     | _ => false
